@@ -132,7 +132,8 @@ def fault_class(case):
         pre = 'bad-ncpu-'
     fa = _fault_actions(case)
     if int(case.get('rsize') or 0) >= PIPE_BUF:
-        if fa and all(w == 'queued' and a == 'exit' for (_, w, _, a, _, _) in fa):
+        # a hard exit anywhere after rqueue.put can hit the feeder thread in the middle of the pipe write of a large result
+        if fa and all(w in ('queued', 'done') and a == 'exit' for (_, w, _, a, _, _) in fa):
             return pre + 'bigres-exit-at-queued'
         pre += 'bigres-'
     if len(fa) > 1:
@@ -173,6 +174,8 @@ def model_fault_specs(case):
                 code = 1 if a == 'raise' else v
                 # exit after the sentinel; without a delay the sentinel may not have reached the pipe
                 tok = ['%d:xs:%d' % (pid, code), '%d:xq:%d:1' % (pid, code)]
+                if a == 'exit' and int(case.get('rsize') or 0) >= PIPE_BUF:
+                    tok = tok + ['%d:xp:%d' % (pid, code)]      # … or the result itself is still being written
             else:
                 code = 1 if a == 'raise' else v
                 # without a delay the result may or may not have reached the pipe before the exit
